@@ -75,7 +75,7 @@ def tlc_stream(name, cfg, outpath, workers, timeout, env=None):
     e = dict(os.environ)
     e.update(env or {})
     # the state spaces are tiny; do not let every JVM claim a quarter of the machine's memory
-    e["JAVA_TOOL_OPTIONS"] = (e.get("JAVA_TOOL_OPTIONS", "") + " -Xmx3g").strip()
+    e["JAVA_TOOL_OPTIONS"] = (e.get("JAVA_TOOL_OPTIONS", "") + " -Xmx3g -Xss1g").strip()
     t0 = time.time()
     r = TlcResult()
     with open(outpath, "w") as fo:
@@ -477,7 +477,7 @@ def classify(d, cases, tag):
 def judge_steps(d, drv, steps, tag, env=None, depth=0):
     """steps: list of (regions [bytes], fin, fout) -> list of (verdict, defect, text) using TLC classification
     of exactly these inputs and a replay on the real code."""
-    steps = [s for s in steps if sum(len(r) for r in s[0]) <= 400]
+    steps = [s for s in steps if sum(len(r) for r in s[0]) <= 2600]
     cases = [{"id": i + 1, "regions": [list(r) for r in regs], "fin": fin, "fout": fout}
              for i, (regs, fin, fout) in enumerate(steps)]
     refs, preds = classify(d, cases, tag)
@@ -585,9 +585,28 @@ def random_laws(v, d, drv, seed, iters, maxlen, tag, env=None, timeout=1200):
         return stats
     v.traces += max(0, done["evals"] - stats["failing_evaluations"])
     # steps of every witness
-    keys = list(wit)
-    if len(keys) > 3000:
-        keys = keys[:3000]
+    # at most 3000 witnesses are classified, taken round-robin over (law, formats) so that no class is starved;
+    # witnesses that could not be shrunk (results depending on foreign memory are not reproducible) are long:
+    # at most 8 of those (<= 2500 bytes) go to TLC
+    nb = lambda k: sum(len(r) for r in k[3]) // 2
+    longw = sorted([k for k in wit if nb(k) > 400], key=nb)
+    keys = [k for k in longw if nb(k) <= 2500][:8]
+    longs, unclassified_long = len(keys), len(longw) - len(keys)
+    groups = {}
+    for key in wit:
+        if nb(key) <= 400:
+            groups.setdefault(key[:3], []).append(key)
+    lists = [sorted(g, key=nb) for g in groups.values()]
+    i = 0
+    while len(keys) < 3000 and any(i < len(l) for l in lists):
+        for l in lists:
+            if i < len(l) and len(keys) < 3000:
+                keys.append(l[i])
+        i += 1
+    stats["witnesses_not_classified_over_budget"] = len(wit) - len(keys) - unclassified_long
+    stats["witnesses_classified"] = len(keys)
+    stats["long_witnesses_classified"] = longs
+    stats["long_witnesses_not_classified"] = unclassified_long
     wsteps, steps = [], []
     for (pred, fin, fout, regs) in keys:
         rg = [bytes.fromhex(r) for r in regs]
@@ -631,7 +650,7 @@ def random_laws(v, d, drv, seed, iters, maxlen, tag, env=None, timeout=1200):
             wsteps[i] = (a, n, len(steps) - 1)
     verd = judge_steps(d, drv, steps, "rnd_" + tag, env=env)
     # judge_steps drops over-long steps: map back by identity
-    kept = [s for s in steps if sum(len(r) for r in s[0]) <= 400]
+    kept = [s for s in steps if sum(len(r) for r in s[0]) <= 2600]
     vmap = {id(s): vd for s, vd in zip(kept, verd)}
     for i, key in enumerate(keys):
         ws = wsteps[i]
@@ -642,7 +661,7 @@ def random_laws(v, d, drv, seed, iters, maxlen, tag, env=None, timeout=1200):
         text = "law %s failed (%s) on %s->%s regions [%s] %s" % (key[0], w["kind"], FMTN[key[1]], FMTN[key[2]],
                                                                 " ".join(key[3]), w["detail"])
         if known:
-            e = stats["known"].setdefault(known[0][1], {"count": 0, "example": text + " :: " + known[0][2]})
+            e = stats["known"].setdefault(known[0][1], {"count": 0, "example": (text + " :: " + known[0][2])[:600]})
             e["count"] += w["n"]
         else:
             stats["violations"] += 1
@@ -650,7 +669,11 @@ def random_laws(v, d, drv, seed, iters, maxlen, tag, env=None, timeout=1200):
                 rp = save_replay(PROP, "law_%s_%d.json" % (tag, i), json.dumps(
                     {"law": key[0], "vectors": [{"fin": FMTN[key[1]], "fout": FMTN[key[2]], "regions": list(key[3])}],
                      "steps": [x[2] for x in vs]}))
-                v.violation("(%s) %s; steps: %s" % (tag, text, " | ".join("%s: %s" % (x[0], x[2]) for x in vs)[:900]), rp)
+                v.violation("(%s) %s; steps: %s" % (tag, text[:700], " | ".join("%s: %s" % (x[0], x[2][:300]) for x in vs)[:900]), rp)
+    if unclassified_long and (stats["violations"] or not stats["known"]):
+        # long witnesses beyond the classification budget count only if something is unexplained anyway
+        rp = save_replay(PROP, "law_%s_long.txt" % tag, "%d long witnesses were not classified" % unclassified_long)
+        v.violation("(%s) %d law failures with witnesses too long to classify" % (tag, unclassified_long), rp)
     return stats
 
 
@@ -766,7 +789,7 @@ def replay(path, seed):
     bad = 0
     for s, (verdict, dname, text) in zip(steps, vs):
         print("%s %s %s" % (verdict.upper(), dname or "", text or "%s->%s [%s] as specified" % (s[1], s[2], " ".join(hx(r) for r in s[0]))))
-        if verdict not in ("ok", "drift"):
+        if verdict not in ("ok", "drift", "known"):
             bad = 1
     if j.get("law"):
         print("law that failed: %s" % j["law"])
